@@ -1,2 +1,162 @@
-(** C04 - placeholder while the engine is being built. *)
-From CC Require Import Base.Prelude.
+(** C04 - CC_List and CC_SList behave as ideal sequences, including the bulk operations.
+    Only statements, each closed by [exact]; proofs live in List_/ListProofs*.v and SList/SListProofs*.v.
+
+    Vocabulary (List_/ListModel.v, List_/ListProofs4.v): a [world] is two lists [wa], [wb] and the allocation ledger
+    [wal]; [cl_step cmp pred w hd o] runs operation [o] on the list named by [hd] (the bulk operations take the other
+    list as their source); [wabs w] is the pair of forward traversals; [spec_step] is the ideal pair of sequences,
+    whose flag [fl] says "the allocator refused inside this operation" (an allocating operation then reports
+    CC_ERR_ALLOC and changes nothing). [winv w]: both lists are well formed (below), both use the same allocator
+    family, and the ledger holds exactly their headers and nodes. *)
+From CC Require Import Base.Prelude Base.Alloc Base.AllocProofs Generated.Status.
+From CC Require Import List_.ListModel List_.ListHeap List_.ListProofs1 List_.ListProofs4 List_.ListProofs5.
+From CC Require Import SList.SListModel SList.SListHeap SList.SListProofs1 SList.SListProofs3 SList.SListProofs4.
+Local Open Scope N_scope.
+
+(** The invariant is preserved by every operation on either handle, with every argument, and no operation faults. *)
+Theorem C04_list_wf_preserved : forall cmp pred w hd o,
+  winv w -> exists out w', cl_step cmp pred w hd o = Ok (out, w') /\ winv w'.
+Proof. exact list_wf_preserved. Qed.
+Print Assumptions C04_list_wf_preserved.
+
+(** What the invariant says: a duplicate-free sequence of non-null node ids, head = first, tail = last, next links it
+    forward and prev backward with NULL at both ends ([dseg]), size = its length, the heap holds exactly these nodes,
+    and the abstraction is the sequence of their data. *)
+Theorem C04_list_wf_explicit : forall w, winv w ->
+  (exists l : list (N * N),
+     NoDup (map fst l) /\ ~ In 0 (map fst l) /\
+     l_head (wa w) = first_id l 0 /\ l_tail (wa w) = last_id l 0 /\ l_size (wa w) = lenN l /\
+     dseg (l_heap (wa w)) 0 l 0 /\ (forall x, hget (l_heap (wa w)) x <> None <-> In x (map fst l)) /\
+     cl_abs (wa w) = map snd l) /\
+  (exists l : list (N * N),
+     NoDup (map fst l) /\ ~ In 0 (map fst l) /\
+     l_head (wb w) = first_id l 0 /\ l_tail (wb w) = last_id l 0 /\ l_size (wb w) = lenN l /\
+     dseg (l_heap (wb w)) 0 l 0 /\ (forall x, hget (l_heap (wb w)) x <> None <-> In x (map fst l)) /\
+     cl_abs (wb w) = map snd l).
+Proof. exact winv_list_wf. Qed.
+Print Assumptions C04_list_wf_explicit.
+
+(** Every operation (add_first/last/at, remove/at/first/last/all/all_cb, replace_at, get_first/last/at, index_of,
+    contains, contains_value, size, to_array, foreach, reverse, filter_mut, add_all, add_all_at, splice, splice_at),
+    every index in N, any comparator and predicate: exact status, out-values and both sequences of the ideal object;
+    a refusal is reported only when the allocator did refuse a request of this operation. *)
+Theorem C04_list_step_refines : forall cmp pred w hd o, winv w ->
+  exists out w' fl, cl_step cmp pred w hd o = Ok (out, w') /\ winv w' /\
+    (out, wabs w') = spec_step cmp pred (wabs w) hd o fl /\ aframe (wal w) (wal w') /\
+    (fl = true -> plan (wal w) <> [] \/ limit (wal w) < req_bytes (psel (wabs w) hd) o).
+Proof. exact list_step_refines. Qed.
+Print Assumptions C04_list_step_refines.
+
+(** add_all / add_all_at leave the whole state of the source list untouched; splice / splice_at leave it empty (or
+    untouched when the source was empty or the index rejected); the destination is the ideal insertion. *)
+Theorem C04_list_bulk : forall cmp pred w hd o, winv w ->
+  exists out w' fl, cl_step cmp pred w hd o = Ok (out, w') /\ winv w' /\
+    (out, wabs w') = spec_step cmp pred (wabs w) hd o fl /\
+    match o with
+    | OAddAll | OAddAllAt _ => wget w' (wother hd) = wget w (wother hd)
+    | OSplice | OSpliceAt _ =>
+        wget w' (wother hd) = wget w (wother hd) \/
+        (wget w' (wother hd) = emptied (wget w (wother hd)) /\ cl_abs (wget w' (wother hd)) = [] /\ cl_size (wget w' (wother hd)) = 0)
+    | _ => True
+    end.
+Proof. exact list_bulk. Qed.
+Print Assumptions C04_list_bulk.
+
+(** The backward traversal (from tail over prev) is the mirror image of the forward one (from head over next). *)
+Theorem C04_list_mirror : forall w, winv w ->
+  cl_back (wa w) = rev (cl_abs (wa w)) /\ cl_back (wb w) = rev (cl_abs (wb w)).
+Proof. exact list_mirror. Qed.
+Print Assumptions C04_list_mirror.
+
+(** All histories on the two lists from the constructor, under any fault plan; with an exhausted plan a refusal
+    happens only for a request above the allocator's limit ([fls_ok]). *)
+Theorem C04_list_run_refines : forall cmp pred mem a0 sa a1 sb a2 ops,
+  lok a0 -> live a0 = [] -> cl_new mem a0 = (CC_OK, Some sa, a1) -> cl_new mem a1 = (CC_OK, Some sb, a2) ->
+  exists outs w' fls, cl_run cmp pred {| wa := sa; wb := sb; wal := a2 |} ops = Ok (outs, w') /\ winv w' /\
+    length fls = length ops /\ (outs, wabs w') = spec_run cmp pred ([], []) ops fls /\
+    (plan a0 = [] -> fls_ok cmp pred (limit a0) ([], []) ops fls).
+Proof. exact list_new_run_refines. Qed.
+Print Assumptions C04_list_run_refines.
+
+(** Non-vacuity: a reachable state with three and one elements satisfies the invariant. *)
+Example C04_list_inv_nonvacuous : exists w, winv w /\ wabs w = ([3; 1; 2], [7]).
+Proof.
+  destruct (cl_new Conf (alloc_init [] W)) as [[st1 [sa|]] a1] eqn:E1; [|vm_compute in E1; discriminate].
+  destruct (cl_new Conf a1) as [[st2 [sb|]] a2] eqn:E2; [|vm_compute in E1; inversion E1; subst; vm_compute in E2; discriminate].
+  assert (st1 = CC_OK /\ st2 = CC_OK) as [-> ->].
+  { vm_compute in E1. inversion E1; subst. vm_compute in E2. inversion E2; subst. auto. }
+  assert (Hk : lok (alloc_init [] W)) by (split; [apply ledger_ok_init|cbn; lia]).
+  destruct (list_new_run_refines cmp_val pred_even Conf (alloc_init [] W) sa a1 sb a2
+              [(HA, OAddLast 1); (HA, OAddLast 2); (HB, OAddFirst 7); (HA, OAddFirst 3)]
+              Hk eq_refl E1 E2) as (outs & w' & fls & E & Hw & _).
+  exists w'. split; [exact Hw|].
+  vm_compute in E1. inversion E1; subst. vm_compute in E2. inversion E2; subst. vm_compute in E. inversion E; subst. reflexivity.
+Qed.
+
+(* ================================================================================================ CC_SList *)
+(** The singly linked list: same vocabulary with an [s] prefix (SList/SListModel.v, SList/SListProofs3.v). The ideal
+    object differs where the documented contract differs: add_all_at / splice_at need index < size, to_array of an
+    empty list is an empty array, index_of compares pointers. There is no backward traversal. *)
+
+Theorem C04_slist_wf_preserved : forall cmp pred w hd o,
+  swinv w -> exists out w', sl_step cmp pred w hd o = Ok (out, w') /\ swinv w'.
+Proof. exact slist_wf_preserved. Qed.
+Print Assumptions C04_slist_wf_preserved.
+
+(** A duplicate-free sequence of non-null node ids, head = first, tail = last, next links it forward and ends in
+    NULL ([sseg]), size = its length, the heap holds exactly these nodes. *)
+Theorem C04_slist_wf_explicit : forall w, swinv w ->
+  (exists l : list (N * N),
+     NoDup (map fst l) /\ ~ In 0 (map fst l) /\
+     sl_head (swa w) = first_id l 0 /\ sl_tail (swa w) = last_id l 0 /\ sl_size (swa w) = lenN l /\
+     sseg (sl_heap (swa w)) l 0 /\ (forall x, shget (sl_heap (swa w)) x <> None <-> In x (map fst l)) /\
+     sl_abs (swa w) = map snd l) /\
+  (exists l : list (N * N),
+     NoDup (map fst l) /\ ~ In 0 (map fst l) /\
+     sl_head (swb w) = first_id l 0 /\ sl_tail (swb w) = last_id l 0 /\ sl_size (swb w) = lenN l /\
+     sseg (sl_heap (swb w)) l 0 /\ (forall x, shget (sl_heap (swb w)) x <> None <-> In x (map fst l)) /\
+     sl_abs (swb w) = map snd l).
+Proof. exact swinv_slist_wf. Qed.
+Print Assumptions C04_slist_wf_explicit.
+
+Theorem C04_slist_step_refines : forall cmp pred w hd o, swinv w ->
+  exists out w' fl, sl_step cmp pred w hd o = Ok (out, w') /\ swinv w' /\
+    (out, swabs w') = sspec_step cmp pred (swabs w) hd o fl /\ aframe (swal w) (swal w') /\
+    (fl = true -> plan (swal w) <> [] \/ limit (swal w) < sreq_bytes (spsel (swabs w) hd) o).
+Proof. exact slist_step_refines. Qed.
+Print Assumptions C04_slist_step_refines.
+
+Theorem C04_slist_bulk : forall cmp pred w hd o, swinv w ->
+  exists out w' fl, sl_step cmp pred w hd o = Ok (out, w') /\ swinv w' /\
+    (out, swabs w') = sspec_step cmp pred (swabs w) hd o fl /\
+    match o with
+    | SAddAll | SAddAllAt _ => swget w' (swother hd) = swget w (swother hd)
+    | SSplice | SSpliceAt _ =>
+        swget w' (swother hd) = swget w (swother hd) \/
+        (swget w' (swother hd) = semptied (swget w (swother hd)) /\ sl_abs (swget w' (swother hd)) = [] /\
+         sl_get_size (swget w' (swother hd)) = 0)
+    | _ => True
+    end.
+Proof. exact slist_bulk. Qed.
+Print Assumptions C04_slist_bulk.
+
+Theorem C04_slist_run_refines : forall cmp pred mem a0 sa a1 sb a2 ops,
+  lok a0 -> live a0 = [] -> sl_new mem a0 = (CC_OK, Some sa, a1) -> sl_new mem a1 = (CC_OK, Some sb, a2) ->
+  exists outs w' fls, sl_run cmp pred {| swa := sa; swb := sb; swal := a2 |} ops = Ok (outs, w') /\ swinv w' /\
+    length fls = length ops /\ (outs, swabs w') = sspec_run cmp pred ([], []) ops fls /\
+    (plan a0 = [] -> sfls_ok cmp pred (limit a0) ([], []) ops fls).
+Proof. exact slist_new_run_refines. Qed.
+Print Assumptions C04_slist_run_refines.
+
+Example C04_slist_inv_nonvacuous : exists w, swinv w /\ swabs w = ([3; 1; 2], [7]).
+Proof.
+  destruct (sl_new Conf (alloc_init [] W)) as [[st1 [sa|]] a1] eqn:E1; [|vm_compute in E1; discriminate].
+  destruct (sl_new Conf a1) as [[st2 [sb|]] a2] eqn:E2; [|vm_compute in E1; inversion E1; subst; vm_compute in E2; discriminate].
+  assert (st1 = CC_OK /\ st2 = CC_OK) as [-> ->].
+  { vm_compute in E1. inversion E1; subst. vm_compute in E2. inversion E2; subst. auto. }
+  assert (Hk : lok (alloc_init [] W)) by (split; [apply ledger_ok_init|cbn; lia]).
+  destruct (slist_new_run_refines cmp_val pred_even Conf (alloc_init [] W) sa a1 sb a2
+              [(SHA, SAddLast 1); (SHA, SAddLast 2); (SHB, SAddFirst 7); (SHA, SAddFirst 3)]
+              Hk eq_refl E1 E2) as (outs & w' & fls & E & Hw & _).
+  exists w'. split; [exact Hw|].
+  vm_compute in E1. inversion E1; subst. vm_compute in E2. inversion E2; subst. vm_compute in E. inversion E; subst. reflexivity.
+Qed.
